@@ -13,6 +13,11 @@
 #include <stdint.h>
 #include <stdbool.h>
 
+#include <time.h>
+/* scripted libc clock (sub-command stdlib_time): this definition takes precedence over libc's time() */
+static long long d_libc_time; static unsigned d_libc_time_calls;
+time_t time(time_t* p) { d_libc_time_calls++; if (p) *p = (time_t)d_libc_time; return (time_t)d_libc_time; }
+
 #include "src/gf.c"
 #include "src/storage.c"
 #include "src/features.c"
@@ -106,6 +111,21 @@ int main(int argc, char** argv) {
     } else if (!strcmp(cmd, "bday") && argc == 3) {
         uint64_t t = num(argv[2]);
         CHECK(spec_bday_ok(t, birthday_encode(t)), "birthday_encode violates the birthday specification");
+    } else if (!strcmp(cmd, "stdlib_time") && argc == 3) {
+        /* the library's own fallback clock (optional `time` entry NULL): create a seed while libc time() returns t */
+        d_libc_time = strtoll(argv[2], NULL, 0);
+        polyseed_deps.time = &stdlib_time;   /* what polyseed_inject installs for a NULL entry (unit U.dep.inject) */
+        polyseed_data* sd = NULL;
+        polyseed_status st = polyseed_create(0, &sd);
+        CHECK(st == POLYSEED_OK && sd != NULL, "create failed");
+        if (sd) {
+            uint64_t b = polyseed_get_birthday(sd);
+            printf("libc time() = %lld -> birthday %llu (epoch %llu)\n", d_libc_time, (unsigned long long)b, (unsigned long long)SPEC_EPOCH);
+            CHECK(d_libc_time_calls == 1, "libc time() not called exactly once");
+            if (d_libc_time < (long long)SPEC_EPOCH) CHECK(b == SPEC_EPOCH, "a clock value before the epoch (or a negative / error value) does not report the epoch birthday");
+            else CHECK(b <= (uint64_t)d_libc_time, "birthday later than the clock value");
+            polyseed_free(sd);
+        }
     } else if (!strcmp(cmd, "bday_decode") && argc == 3) {
         unsigned b = num(argv[2]) & 1023;
         CHECK(birthday_decode(b) == SPEC_EPOCH + (uint64_t)b * SPEC_STEP, "birthday_decode != epoch + k*step");
